@@ -86,6 +86,7 @@ Section NF.
         destruct ((tok =? 92) || (tok =? 39)).
         * destruct value as [|[] ?]; try exact I; apply IH2; lia.
         * destruct (tok =? 34); [|apply IH2; lia].
+          destruct (only_at value && Nat.leb (length (args e)) 1); [apply IH2; lia|].
           match goal with |- R (match expand users f ?e ?w ?m with _ => _ end) =>
             assert (H1 : R (expand users f e w m)) by (apply IH1; lia); destruct (expand users f e w m) as [[e1 w1]|[e1 x1]| |] end;
             cbn [R] in *; try exact I; try contradiction. apply IH2; lia.
